@@ -298,6 +298,8 @@ def _nanmean(interp, x, *a, **k):
 @model(np.asarray, np.array, np.ascontiguousarray)
 def _asarray(interp, x, dtype=None, copy=None, **kw):
     eng = _eng()
+    if isinstance(x, list) and x and all(isinstance(r, SArr) for r in x):
+        return models.Arr2D(list(x))          # a table built from equally long columns
     if _all_concrete(x, dtype):
         return np.array(x, dtype=dtype, **kw) if copy is None else np.array(x, dtype=dtype, copy=copy, **kw)
     if isinstance(x, SOpaque):
